@@ -68,6 +68,8 @@ pub enum Part {
     SetAlgebra,
     /// HashTable as a multiset: every key stored twice (C06)
     Table,
+    /// get_many_mut / get_many_key_value_mut over tuples of stored and absent keys (C15)
+    ManyMut,
 }
 
 #[derive(Clone, Copy, Debug, Serialize, Deserialize)]
@@ -661,6 +663,76 @@ fn part_table(c: &BCase, model: Model) -> Result<(), String> {
     chk(&t, &Vec::new(), "after clear()")
 }
 
+fn part_many(c: &BCase, mut m: M, mut model: Model, removed: Vec<BKey>) -> Result<(), String> {
+    let ks: Vec<BKey> = model.keys().copied().collect();
+    if ks.is_empty() {
+        return Ok(());
+    }
+    let n = ks.len();
+    let absent = removed.first().copied().unwrap_or(BKey { id: u64::MAX, h: c.plan.hash(1) });
+    // by bucket position: the stored keys in the first and the last occupied buckets (and the middle one)
+    let d = m.verif_dump();
+    let occupied: Vec<BKey> = (0..=d.bucket_mask).filter_map(|i| m.verif_bucket(i).map(|(k, _)| *k)).collect();
+    let picks = [occupied[0], occupied[occupied.len() / 2], occupied[occupied.len() - 1], ks[0], ks[n / 2], ks[n - 1], ks[n / 3]];
+    let mut stamp = 1000u64;
+    for i in 0..picks.len() {
+        for j in 0..picks.len() {
+            let (a, b) = (picks[i], picks[j]);
+            // pairs, with an absent key in between
+            let req = [a, absent, b];
+            let r = env::catch(|| {
+                let got = m.get_many_mut([&req[0], &req[1], &req[2]]);
+                let mut out = [None, None, None];
+                for (x, g) in got.into_iter().enumerate() {
+                    if let Some(v) = g {
+                        out[x] = Some(*v);
+                        *v = stamp + x as u64;
+                    }
+                }
+                out
+            });
+            if a == b {
+                match r {
+                    Err(msg) if msg.contains("duplicate") => {}
+                    Err(msg) => return Err(format!("get_many_mut with the same key twice panicked with an unexpected message: {msg}")),
+                    Ok(_) => return Err(format!("get_many_mut([{:?}, absent, {:?}]) returned instead of panicking", a, b)),
+                }
+                continue;
+            }
+            let out = match r {
+                Ok(o) => o,
+                Err(msg) => return Err(format!("get_many_mut([{:?}, absent, {:?}]) of two different stored keys panicked: {msg}", a, b)),
+            };
+            if out[0] != model.get(&a).copied() || out[1].is_some() || out[2] != model.get(&b).copied() {
+                return Err(format!("get_many_mut([{:?}, absent, {:?}]) = {:?}, reference has {:?} / None / {:?}", a, b, out, model.get(&a), model.get(&b)));
+            }
+            model.insert(a, stamp);
+            model.insert(b, stamp + 2);
+            stamp += 10;
+        }
+    }
+    same(&m, &model, "after writing through get_many_mut")?;
+    // four keys at once, key-value form
+    let req = [picks[0], picks[2], picks[4], picks[5]];
+    let mut distinct = req.to_vec();
+    distinct.sort();
+    distinct.dedup();
+    if distinct.len() == 4 {
+        let got = m.get_many_key_value_mut([&req[0], &req[1], &req[2], &req[3]]);
+        for (x, g) in got.into_iter().enumerate() {
+            match g {
+                Some((k, v)) if *k == req[x] && Some(&*v) == model.get(&req[x]) => *v += 1,
+                other => return Err(format!("get_many_key_value_mut: request #{x} ({:?}) gave {:?}", req[x], other.map(|(k, v)| (*k, *v)))),
+            }
+        }
+        for k in &req {
+            *model.get_mut(k).unwrap() += 1;
+        }
+        same(&m, &model, "after writing through get_many_key_value_mut")?;
+    }
+    Ok(())
+}
+
 pub fn run_case(c: &BCase) -> Result<u64, String> {
     crate::crumbs::touch();
     let (m, model, removed) = build(c)?;
@@ -672,6 +744,7 @@ pub fn run_case(c: &BCase) -> Result<u64, String> {
         Part::Clone => part_clone(c, m, model)?,
         Part::SetAlgebra => part_set(c, m, model, removed)?,
         Part::Table => part_table(c, model)?,
+        Part::ManyMut => part_many(c, m, model, removed)?,
     }
     Ok(n)
 }
@@ -679,7 +752,8 @@ pub fn run_case(c: &BCase) -> Result<u64, String> {
 pub fn cases(tier: Tier, part: Part) -> Vec<BCase> {
     let q = tier == Tier::Quick;
     let w = hashbrown::verif::GROUP_WIDTH;
-    let ns: Vec<usize> = if q { vec![130, 40 * w] } else { vec![113, 130, 224, 225, 449, 40 * w, 1000] };
+    // 112, 224: tables filled exactly to their capacity (128 and 256 buckets) before the thinning
+    let ns: Vec<usize> = if q { vec![112, 130, 40 * w] } else { vec![112, 113, 130, 224, 225, 449, 40 * w, 1000] };
     let plans = [WPlan::Zero, WPlan::Seq, WPlan::Stride, WPlan::Mix, WPlan::Four];
     let thins = [Thin::None, Thin::EverySecond, Thin::FirstHalf, Thin::LastHalf, Thin::AllBut3, Thin::Scatter];
     let mut v = Vec::new();
